@@ -13,10 +13,15 @@ pub struct Ledger {
     /// failed body checks: (rule, message)
     pub errors: Vec<(String, String)>,
     pub ops: std::collections::BTreeMap<&'static str, u64>,
+    /// zero-sized values with a destructor cannot carry a token id: counted
+    pub zst_created: u64,
+    pub zst_dropped: u64,
 }
 
 #[derive(Default, Debug, Clone)]
 pub struct LedgerReport {
+    pub zst_created: u64,
+    pub zst_dropped: u64,
     pub created: usize,
     pub clones: usize,
     /// tokens never dropped: (token id, uid)
@@ -29,7 +34,7 @@ pub struct LedgerReport {
 
 impl Ledger {
     pub fn report(&self) -> LedgerReport {
-        let mut r = LedgerReport { created: self.created.len(), errors: self.errors.clone(), ops: self.ops.clone(), ..Default::default() };
+        let mut r = LedgerReport { created: self.created.len(), errors: self.errors.clone(), ops: self.ops.clone(), zst_created: self.zst_created, zst_dropped: self.zst_dropped, ..Default::default() };
         for (i, (uid, is_clone)) in self.created.iter().enumerate() {
             if *is_clone {
                 r.clones += 1;
@@ -165,11 +170,31 @@ pub struct NoClone {
     pub t: TokBody,
 }
 
+/// zero-sized, but with a destructor that must run exactly once
+#[derive(Debug, MessageBody)]
+pub struct ZstDrop;
+impl ZstDrop {
+    fn new() -> Self {
+        with_ctx(|c| c.ledger.zst_created += 1);
+        ZstDrop
+    }
+}
+impl Clone for ZstDrop {
+    fn clone(&self) -> Self {
+        ZstDrop::new()
+    }
+}
+impl Drop for ZstDrop {
+    fn drop(&mut self) {
+        with_ctx(|c| c.ledger.zst_dropped += 1);
+    }
+}
+
 /// layout compatible with u64 but a different type
 #[derive(Debug, Clone, MessageBody)]
 pub struct OneField(pub u64);
 
-pub const N_BODIES: u8 = 20;
+pub const N_BODIES: u8 = 21;
 
 fn tok_len(uid: u32) -> usize {
     [8usize, 100, 436, 1000][(uid as usize >> 3) % 4]
@@ -201,7 +226,8 @@ pub fn declared_len_uid(body: u8, uid: u32) -> usize {
         16 => tok_len(uid),                                    // NoClone
         17 => if uid % 2 == 0 { tok_len(uid) } else { 2 },     // Result<TokBody, String>
         18 => tok_len(uid) + tok_len(uid + 1),                 // [TokBody; 2]
-        _ => (0..(uid % 3) as usize).map(|k| tok_len(uid + k as u32)).sum(), // VecDeque<TokBody>
+        19 => (0..(uid % 4) as usize).map(|k| tok_len(uid + k as u32)).sum(), // VecDeque<TokBody> (ring buffer wrapped)
+        _ => 0,                                                // ZstDrop
     }
 }
 
@@ -237,7 +263,19 @@ pub fn make_message(uid: u32, body: u8) -> Message {
         16 => msg.set_content_non_clonable(NoClone { t: TokBody::new(uid, tok_len(uid)) }),
         17 => msg.set_content::<Result<TokBody, String>>(if uid % 2 == 0 { Ok(TokBody::new(uid, tok_len(uid))) } else { Err("no".into()) }),
         18 => msg.set_content([TokBody::new(uid, tok_len(uid)), TokBody::new(uid, tok_len(uid + 1))]),
-        _ => msg.set_content((0..uid % 3).map(|k| TokBody::new(uid, tok_len(uid + k))).collect::<VecDeque<_>>()),
+        19 => {
+            // built so that the ring buffer is wrapped: the elements live in two slices
+            let n = uid % 4;
+            let mut v: VecDeque<TokBody> = VecDeque::with_capacity(4);
+            for k in 1..n {
+                v.push_back(TokBody::new(uid, tok_len(uid + k)));
+            }
+            if n > 0 {
+                v.push_front(TokBody::new(uid, tok_len(uid)));
+            }
+            msg.set_content(v);
+        }
+        _ => msg.set_content(ZstDrop::new()),
     }
     msg
 }
@@ -420,10 +458,15 @@ fn right_type_read(uid: u32, k: u8, msg: &Message) {
             Some(a) if a[0].ok(uid) && a[1].ok(uid) => {}
             _ => bad("[TokBody; 2] differs"),
         },
-        _ => match msg.try_content::<VecDeque<TokBody>>() {
-            Some(v) if v.len() == (uid % 3) as usize && v.iter().all(|t| t.ok(uid)) => {}
+        19 => match msg.try_content::<VecDeque<TokBody>>() {
+            Some(v) if v.len() == (uid % 4) as usize && v.iter().all(|t| t.ok(uid)) => {}
             _ => bad("VecDeque<TokBody> differs"),
         },
+        _ => {
+            if msg.try_content::<ZstDrop>().is_none() {
+                bad("ZstDrop not readable");
+            }
+        }
     }
 }
 
@@ -460,7 +503,8 @@ fn successful_cast(uid: u32, k: u8, msg: Message) {
         16 => cast_ok!(NoClone, |n: &NoClone| n.t.ok(uid)),
         17 => cast_ok!(Result<TokBody, String>, |r: &Result<TokBody, String>| r.as_ref().map_or(uid % 2 == 1, |t| t.ok(uid))),
         18 => cast_ok!([TokBody; 2], |a: &[TokBody; 2]| a[0].ok(uid)),
-        _ => cast_ok!(VecDeque<TokBody>, |v: &VecDeque<TokBody>| v.len() == (uid % 3) as usize),
+        19 => cast_ok!(VecDeque<TokBody>, |v: &VecDeque<TokBody>| v.len() == (uid % 4) as usize),
+        _ => cast_ok!(ZstDrop, |_z: &ZstDrop| true),
     }
 }
 
